@@ -25,6 +25,7 @@ def run(ctx):
     from . import c02, c05
     from .common import MultiAlias
     c02.write_table(ctx, "C19.R2")
+    c02.restart_head(ctx, "C19.R2")      # the status that is logged is the status line that was sent, also after a restarted start_response
     c02.late_error(ctx, "C19.R1")        # a late failure does not reach handle_error (which would log the request a second time)
     c05.stale_request(MultiAlias(ctx, {"C05.R2": "C19.R1"}))
     c05.stale_to_handle_error(MultiAlias(ctx, {"C05.R2": "C19.R1"}))
@@ -188,9 +189,18 @@ def r3(ctx):
     wr = [c for c in walk_own(fa.node) if isinstance(c, ast.Call) and norm(c.func) == "self.atoms_wrapper_class"]
     inf = [c for c in method_calls(fa, "info") if "access_log" in norm(c.func.value)]
     ctx.need(wr and inf, "C19.R3: Logger.access does not wrap the atoms / emit the record")
-    st = fa.module.enclosing(wr[0], ast.Assign)
-    okk = st is not None and isinstance(st.targets[0], ast.Name) and len(inf[0].args) >= 2 and isinstance(inf[0].args[1], ast.Name) and inf[0].args[1].id == st.targets[0].id
-    ctx.check("C19.R3", okk, key(fa, "wrapped-atoms-logged"), site(fa), "the record is formatted from unwrapped atoms", "info(fmt, wrapped atoms)")
+    # every record: the mapping handed to access_log.info is, on every path, the atoms wrapper applied to the atoms (the one
+    # place where CR / LF / quotes of decoded atoms are neutralised) -- no second way of building it
+    for ic in inf:
+        okk = len(ic.args) >= 2 and isinstance(ic.args[1], ast.Name)
+        if okk:
+            V = ic.args[1].id
+            sts = stores_to_name(fa, V)
+            okk = bool(sts) and all(isinstance(x.ast, ast.Assign) and isinstance(x.ast.value, ast.Call) and norm(x.ast.value.func) == "self.atoms_wrapper_class" for x in sts)
+        elif len(ic.args) >= 2:
+            okk = isinstance(ic.args[1], ast.Call) and norm(ic.args[1].func) == "self.atoms_wrapper_class"
+        ctx.check("C19.R3", okk, key(fa, "wrapped-atoms-logged"), site(fa, ic), "the access record can be formatted from atoms that did not go through the atoms wrapper (SafeAtoms): CR / LF in a decoded atom "
+                  "(basic-auth user, %0a in the path) reach the log line and fabricate records", "info(fmt, SafeAtoms(atoms)) on every path")
     ctx.check("C19.R3", any(isinstance(a, ast.Call) and norm(a.func) == "self.atoms" for a in wr[0].args), key(fa, "wraps-all-atoms"), site(fa), "the wrapper is not applied to the full atoms dict", "wrapper(self.atoms(..))")
     lg = repo.cls(GLOG + ".Logger")
     wc = lg.attrs.get("atoms_wrapper_class")
